@@ -298,10 +298,16 @@ class ReadSetReader:
         """
         if regions is None:
             regions = [(0, None)]
+        previous_regions = []
         for s, e in regions:
             for alignment in self._reader.fetch(
                 reference=chromosome, sample=sample, start=s, end=e
             ):
+                if previous_regions and alignment_overlaps_regions(
+                    alignment.bam_alignment, previous_regions
+                ):
+                    # already retrieved for an earlier region
+                    continue
                 # TODO handle additional alignments correctly!
                 # find out why they are sometimes overlapping/redundant
                 if (
@@ -313,6 +319,7 @@ class ReadSetReader:
                 ):
                     continue
                 yield alignment
+            previous_regions.append((s, e))
 
     def has_reference(self, chromosome):
         return self._reader.has_reference(chromosome)
@@ -822,6 +829,22 @@ class ReadSetReader:
 
     def close(self):
         self._reader.close()
+
+
+def alignment_overlaps_regions(bam_alignment, regions) -> bool:
+    """
+    Return whether the alignment would (also) be fetched for one of the given regions of its
+    chromosome. regions is a list of (start, end) tuples (0-based, half-open, end may be None).
+    """
+    aln_start = bam_alignment.reference_start
+    aln_end = bam_alignment.reference_end
+    if aln_end is None or aln_end <= aln_start:
+        # unmapped but placed, or no reference-consuming operation: occupies one position
+        aln_end = aln_start + 1
+    for start, end in regions:
+        if (end is None or aln_start < end) and aln_end > start:
+            return True
+    return False
 
 
 def merge_two_reads(read1: Read, read2: Read) -> Read:
